@@ -64,6 +64,8 @@ func main() {
 	os.Exit(runCheck(eng, start))
 }
 
+var skippedUnits []string
+
 type unitResult struct {
 	u *Unit
 }
@@ -94,6 +96,10 @@ func selectUnits(eng *Engine) []*Contract {
 			if *flagUnit != "" && !strings.Contains(c.Pkg+"."+c.Name, *flagUnit) {
 				continue
 			}
+			if c.Flags["thorough"] != "" && *flagTier != "thorough" {
+				skippedUnits = append(skippedUnits, c.Pkg+"."+c.Name)
+				continue
+			}
 			out = append(out, c)
 		}
 	}
@@ -115,9 +121,9 @@ func runCheck(eng *Engine, start time.Time) int {
 	}
 	timeout := *flagTimeout
 	if timeout == 0 {
-		timeout = 20
+		timeout = 40
 		if *flagTier == "thorough" {
-			timeout = 120
+			timeout = 180
 		}
 	}
 	workdir := *flagOut
@@ -228,6 +234,14 @@ func runCheck(eng *Engine, start time.Time) int {
 			defer func() { <-sem }()
 			var r SolveResult
 			done := false
+			timeout := timeout
+			if v := j.u.Contract.Flags["timeout"]; v != "" {
+				var tv int
+				fmt.Sscanf(v, "%d", &tv)
+				if tv > timeout {
+					timeout = tv
+				}
+			}
 			if len(j.iz3) > 0 {
 				// quantifier-free instantiated variant(s) first; only "unsat" (of every case) is conclusive for them
 				it := timeout / 2
